@@ -39,9 +39,19 @@ def gen_types(rng):
     return lines, types
 
 
-def gen_decl(rng, types, idx, allow_dyn=False):
-    """-> (name, declaration text, shape) ; shape = ('s', type) | ('a', type, dims) ; type = builtin name or record name"""
+def gen_decl(rng, types, idx, allow_dyn=False, bias=None):
+    """-> (name, declaration text, shape) ; shape = ('s', type) | ('a', type, dims) ; type = builtin name or record name.
+    bias = a record type name: most declarations become arrays of that record (search mode)"""
     r = rng.random()
+    if bias is not None and rng.random() < 0.6:
+        rank = rng.choice([1, 1, 2])
+        dims = []
+        for _ in range(rank):
+            lo = rng.choice([0, 1, -3, 10, -1])
+            dims.append((lo, lo + rng.randint(0, 3)))
+        name = f'av{idx}'
+        dtxt = ', '.join(f'{lo} TO {hi}' for lo, hi in dims)
+        return name, f'DIM {name}({dtxt}) AS {bias}', ('a', bias, dims)
     if r < 0.3:
         t = rng.choice(TYPES)
         return f'sv{idx}{TC[t]}', None, ('s', t)
@@ -103,12 +113,13 @@ def leaf_paths(tname, types):
 
 # ------------------------------------------------------------------ sentinel programs
 
-def sentinel_program(rng):
+def sentinel_program(rng, search=False):
     """-> (source, expected output text).  Every location gets a distinct value; reads come back in another order."""
     tlines, types = gen_types(rng)
     ndecl = rng.randint(2, 6)
     where = rng.choice(['main', 'sub', 'static', 'shared'])
-    decls = [gen_decl(rng, types, i) for i in range(ndecl)]
+    bias = rng.choice(list(types)) if search and types else None
+    decls = [gen_decl(rng, types, i, bias=bias) for i in range(ndecl)]
     locs = []     # (lvalue text, builtin type)
     for name, decl, shape in decls:
         if shape[0] == 's':
@@ -401,6 +412,24 @@ def run(chk):
                 chk.finding('C04 a location does not read back what was stored (overlap, leak or alias)',
                             f'line {k}: got {a[k] if k < len(a) else None!r}, expected {b[k] if k < len(b) else None!r}; outcome {r[4]}',
                             {'kind': 'program', 'src': src, 'O': r[0], 'g': r[1], 'expected': exp_})
+    # a proof obligation / the correspondence broke but no sentinel run failed yet: search with biased shapes
+    rounds = 0
+    while chk.broken and not chk.violations and rounds < chk.n(3, 8):
+        rounds += 1
+        chk.say(f'search round {rounds}: sentinel programs biased to several arrays of one record type')
+        more = []
+        for i in range(300):
+            src, exp_ = sentinel_program(rng, search=True)
+            more.append((src, exp_, [real.CONFIGS[i % 6]]))
+        for (src, exp_, cfgs), rs in zip(more, real.pmap(run_one, more)):
+            for r in rs:
+                nrun += 1
+                if r[2] == 'run' and (r[3] != exp_ or r[4][0] != 'end'):
+                    a, b = r[3].split('\r\n'), exp_.split('\r\n')
+                    k = next((i for i, (x, y) in enumerate(zip(a, b)) if x != y), min(len(a), len(b)))
+                    chk.finding('C04 a location does not read back what was stored (overlap, leak or alias)',
+                                f'line {k}: got {a[k] if k < len(a) else None!r}, expected {b[k] if k < len(b) else None!r}; outcome {r[4]}',
+                                {'kind': 'program', 'src': src, 'O': r[0], 'g': r[1], 'expected': exp_})
     dist['sentinel_runs'] = nrun
     chk.samples += [{'program': progs_[0][0], 'expected': progs_[0][1]}, {'layout_request': reqs[0] if reqs else None, 'real': exp[0] if exp else None}]
     chk.cov['input_distribution'] = dist
